@@ -204,3 +204,21 @@ Proof.
   intros T H. unfold Recover.recover_inner. rewrite T.
   destruct (N.leb_spec (Slots.hcount nh) 2048); [lia|]. rewrite !andb_false_r. reflexivity.
 Qed.
+
+(* ---- C10: the reconstructor-side matrix of the updater: identity below n, row N of TS004 at 0-based index n + N - 1
+   (i.e. 1-based fragment index n + N) ---- *)
+Require Import Lfdbt.
+Theorem updater_row_identity ffr nn mm : (mm < nn)%nat -> updater_row ffr nn mm = N.shiftl 1 (N.of_nat mm).
+Proof. intros H. unfold updater_row. destruct (Nat.ltb_spec mm nn); [reflexivity| lia]. Qed.
+
+Theorem updater_row_coded nn mm l : (nn <= mm)%nat -> N.of_nat (mm - nn + 1) <= 16383 ->
+  matrix_line PRBS_FUEL (N.of_nat (mm - nn + 1)) (N.of_nat nn) = Some l ->
+  updater_row false nn mm = Lfdbt.mask l.
+Proof.
+  intros H1 H2 H3. unfold updater_row. destruct (Nat.ltb_spec mm nn); [lia|].
+  unfold coded_row. cbv zeta. unfold matrix_line in H3.
+  assert (E : u32 (N.of_nat (mm - nn + 1)) = N.of_nat (mm - nn + 1)) by (unfold u32; apply N.mod_small; lia).
+  rewrite E. assert (E2 : u32 (1 + u32 (1001 * N.of_nat (mm - nn + 1))) = 1 + 1001 * N.of_nat (mm - nn + 1)).
+  { unfold u32. rewrite (N.mod_small (1001 * _)) by lia. apply N.mod_small. lia. }
+  rewrite E2, H3. reflexivity.
+Qed.
